@@ -12,5 +12,6 @@ for id in $ids; do
   if echo "$out" | grep -q "patch does not apply"; then echo "$id NOAPPLY"; continue; fi
   n=$(echo "$out" | grep -c "^  detail")
   rc=$(echo "$out" | grep -o "rc=[0-9]*" | head -1)
-  if [ "$n" -gt 0 ]; then echo "$id CAUGHT $rc $(echo "$out" | grep '^  detail' | head -1 | cut -c11-150)"; else echo "$id MISSED $rc"; fi
+  nc=""; grep -q '"status": "not-caught"' seeded/$id/meta.json 2>/dev/null && nc=" (recorded as not caught, see DESIGN.md section 14)"
+  if [ "$n" -gt 0 ]; then echo "$id CAUGHT $rc $(echo "$out" | grep '^  detail' | head -1 | cut -c11-150)"; else echo "$id MISSED $rc$nc"; fi
 done
